@@ -4,10 +4,11 @@ Base == [src |-> "-", kind |-> "-", a |-> "Zero", d |-> 0, rel |-> "-", tgt |-> 
 IntCases   == UNION {{[Base EXCEPT !.src = s, !.kind = "int", !.a = Anchors[p[1]], !.d = p[2], !.tgt = t] : p \in SrcPts(s), t \in Targets} : s \in IntTypes}
 FloatCases == UNION {{[Base EXCEPT !.src = ft, !.kind = "float", !.a = Anchors[fp[1]], !.rel = fp[2], !.tgt = t] : fp \in FPts(ft), t \in Targets} : ft \in FloatTypes}
 SpecCases  == {[Base EXCEPT !.src = ft, !.kind = k, !.tgt = t] : ft \in FloatTypes, k \in {"nan", "pinf", "ninf", "negzero"}, t \in Targets}
-              \cup {[Base EXCEPT !.src = "float64", !.kind = k, !.tgt = t] : k \in {"huge", "nhuge"}, t \in Targets}
+              \cup {[Base EXCEPT !.src = "float64", !.kind = k, !.tgt = t] : k \in {"huge", "nhuge", "halfbelow", "nhalfbelow", "odd52", "nodd52"}, t \in Targets}
 BoolCases  == {[Base EXCEPT !.src = "bool", !.kind = "bool", !.d = b, !.tgt = t] : b \in {0, 1}, t \in Targets}
 StrCases   == {[Base EXCEPT !.src = "string", !.kind = "strint", !.a = Anchors[p[1]], !.d = p[2], !.tgt = t] : p \in AllPts, t \in Targets}
               \cup {[Base EXCEPT !.src = "string", !.kind = "strbad", !.d = v, !.tgt = t] : v \in {0, 1}, t \in Targets}
+              \cup {[Base EXCEPT !.src = "string", !.kind = "strfloatbig", !.d = v, !.tgt = t] : v \in 0..5, t \in Targets}
               \* strfloat: "1.5", "1e3" and eight long decimal strings a hair above / below the midpoint of two adjacent float32 (float64) values
               \cup {[Base EXCEPT !.src = "string", !.kind = "strfloat", !.d = v, !.tgt = t] : v \in 0..9, t \in Targets}
 UnsCases   == {[Base EXCEPT !.src = s, !.kind = "unsupported", !.tgt = t] : s \in {"struct", "slice", "map", "func", "chan", "complex"}, t \in Targets}
